@@ -17,7 +17,7 @@ _want12 = ("c12.join", "c12.tryjoin", "c12.detach", "c12.join_1", "c12.entry_poi
            "c12.desc", "c12.stack.default", "c12.stack.custom", "c12.freelist.push", "c12.freelist.pop", "c12.freelist.lifo")
 JOBS = [j for j in _c12.JOBS if j.name in _want12] + \
        [j for j in _c01.JOBS if j.name in ("c01.create", "c01.attr_init", "c01.attr_setters")] + \
-       [j for j in _c20.JOBS if j.name.startswith("c20.timedjoin")]
+       [j for j in _c20.JOBS if j.name.startswith("c20.timedjoin") or j.name in ("c20.timespec_gt", "c20.timespec_add", "c20.hr_gettime")]   # the deadline helpers timedjoin is proved against
 # the public API functions are one-line forwarders to the bodies under contract: checked mechanically (DESIGN §3.5b)
 from units.common_forward import forward_job
 JOBS = list(JOBS) + [forward_job("c13")]
